@@ -184,7 +184,10 @@ class InternalEnforcer(CoreEnforcer):
                 return False
 
             if self.watcher and self.auto_notify_watcher:
-                self.watcher.update()
+                if callable(getattr(self.watcher, "update_for_remove_filtered_policy", None)):
+                    self.watcher.update_for_remove_filtered_policy(sec, ptype, field_index, *field_values)
+                else:
+                    self.watcher.update()
 
         return rule_removed
 
